@@ -30,6 +30,10 @@ var catalogue = []pipe{
 	{name: "whereCount", script: `|where(lambda: count() > 1)`},
 	{name: "eval", script: `|eval(lambda: "x" + 1).as('y').keep('x', 'y', 'k')`},
 	{name: "evalSigma", script: `|eval(lambda: count() * 10).as('c').keep('c', 'k')`},
+	{name: "whereNestedCount", script: `|where(lambda: float(count()) > 1.0)`},
+	{name: "evalIfCount", script: `|eval(lambda: if(count() > 1, 1, 0)).as('c').keep('c', 'k')`},
+	{name: "evalNestedSpread", script: `|eval(lambda: abs(spread("x")) + max(count(), 0)).as('c').keep('c', 'k')`},
+	{name: "stateCountNested", script: `|stateCount(lambda: int(count()) > 1)`},
 	{name: "derivative", script: `|derivative('x').unit(1s)`},
 	{name: "changeDetect", script: `|changeDetect('x')`},
 	{name: "stateCount", script: `|stateCount(lambda: "x" > 1)`},
@@ -44,6 +48,7 @@ var catalogue = []pipe{
 	{name: "elapsed", script: `|elapsed('x', 1s)`},
 	{name: "last", script: `|window().period(2s).every(2s)|last('x')`},
 	{name: "alertSCO", script: `|alert().id('{{ .Group }}').crit(lambda: "x" > 2).warn(lambda: "x" > 1).stateChangesOnly().topic('%T').levelField('l')`, alert: true},
+	{name: "alertNestedCount", script: `|alert().id('{{ .Group }}').crit(lambda: float(count()) > 2.0).topic('%T').levelField('l')`, alert: true},
 	{name: "alertCount", script: `|alert().id('{{ .Group }}').crit(lambda: count() > 2).topic('%T').levelField('l')`, alert: true},
 	{name: "alertReset", script: `|alert().id('{{ .Group }}').crit(lambda: "x" > 2).critReset(lambda: count() > 3).topic('%T')`, alert: true},
 	{name: "alertHistory", script: `|alert().id('{{ .Group }}').crit(lambda: "x" > 1).flapping(0.3, 0.6).history(4).topic('%T')`, alert: true},
@@ -290,6 +295,9 @@ func Run(r *rt.Run) error {
 				t.Distinct(fmt.Sprintf("%s/%s/%d", pp.name, g.name, pi))
 			}
 		}
+	}
+	if err := runDelete(r, env, t); err != nil {
+		return err
 	}
 	names := []string{}
 	for _, p := range catalogue {
